@@ -263,13 +263,17 @@ func init() {
 				s := showU64s(ws)
 				g.emit("idxsel32 %s", s)
 				g.emit("idxsel32r64 %s", s)
-				for k := 0; k < g.n(8, 64) && n > 0; k++ {
+				is := []uint64{}
+				for k := 0; k < g.n(16, 200) && n > 0; k++ {
 					i := []int{n - 1, n - 2, 65535, 65536, 32767, 32768, g.intn(n), g.intn(n)}[k%8]
 					if i < 0 || i >= n {
 						i = g.intn(n)
 					}
-					g.emit("sel32 %s %d", s, i)
-					g.emit("sel32r64 %s %d", s, i)
+					is = append(is, uint64(i))
+				}
+				if len(is) > 0 {
+					g.emit("sel32m %s %s", s, showU64s(is))
+					g.emit("sel32r64m %s %s", s, showU64s(is))
 				}
 			}
 		}
